@@ -19,6 +19,7 @@ import SkModel.Runner
 import SkModel.Collect
 import SkModel.Catalog
 import SkModel.Cache
+import SkModel.Fault
 import SkModel.Spec.Lines
 
 open Lean Sk
@@ -649,10 +650,51 @@ def runCacheCase (j : Json) : Json :=
     ("logLen", toJson sF.log.length), ("specReplayOk", toJson replayOk),
     ("disk", Json.arr (keys.map fun k => Json.arr #[toJson k, optVal (sF.disk.value k)]).toArray)]
 
+/-! ### Fault (C10): run a schedule of the fault transition system -/
+
+def toFLbl (j : Json) : Option FLbl :=
+  let a := asArr j
+  let w := asNat (a.getD 1 .null)
+  match asStr (a.getD 0 .null) with
+  | "start" => some (.start w) | "wantAlloc" => some (.wantAlloc w)
+  | "acqAlloc" => some (.acqAlloc w) | "relAlloc" => some (.relAlloc w)
+  | "wantSync" => some (.wantSync w) | "acqSync" => some (.acqSync w)
+  | "relSync" => some (.relSync w) | "crash" => some (.crash w)
+  | "killAll" => some .killAll | "raise" => some (.raise_ w)
+  | "infoWant" => some .infoWant | "infoAcq" => some .infoAcq | "infoRel" => some .infoRel
+  | "mainSeesFailure" => some .mainSeesFailure | "mainSeesBroken" => some .mainSeesBroken
+  | "mainAllDone" => some .mainAllDone | "mainAcquire" => some .mainAcquire
+  | "mainReclaim" => some .mainReclaim | "mainRelease" => some .mainRelease
+  | "joinResults" => some .joinResults | "joinInfo" => some .joinInfo
+  | "teardown" => some .teardown
+  | _ => none
+
+def fmainStr : FMain → String
+  | .waiting => "waiting" | .shutdownWait => "shutdownWait" | .reclaim => "reclaim"
+  | .holdsLock => "holdsLock" | .joinResults => "joinResults" | .joinInfo => "joinInfo"
+  | .teardown => "teardown" | .raised => "raised" | .returned => "returned"
+
+def runFaultCase (j : Json) : Json :=
+  let n := natF j "n"
+  let rec go (s : FState) (ls : List Json) (i : Nat) : FState × Option Nat :=
+    match ls with
+    | [] => (s, none)
+    | l :: rest => match toFLbl l with
+      | none => (s, some i)
+      | some lbl => match fstep s lbl with
+        | some s' => go s' rest (i + 1)
+        | none => (s, some i)
+  let (sF, bad) := go (FState.init n) (arrF j "labels").toList 0
+  Json.mkObj [("valid", toJson bad.isNone), ("at", optNat bad), ("main", Json.str (fmainStr sF.main)),
+    ("lockFree", toJson sF.lock.isNone), ("infoStopped", toJson (sF.info == .stopped)),
+    ("resultsJoined", toJson sF.resultsJoined), ("quiet", toJson sF.quiet),
+    ("final", toJson sF.final)]
+
 def handle (j : Json) : Json :=
   match strF j "kind" with
   | "task" => Json.mkObj [("model", runTaskCase j), ("specSimple", specSimpleCase j),
                           ("specSeq", specSeqCase j), ("specGate", specGateCase j)]
+  | "fault" => Json.mkObj [("model", runFaultCase j)]
   | "cache" => Json.mkObj [("model", runCacheCase j)]
   | "catalog" => Json.mkObj [("model", runCatalogCase j)]
   | "collect" => Json.mkObj [("model", runCollectCase j)]
